@@ -82,6 +82,7 @@ var targets = []target{
 	// the digit recodings and the table-driven scalar multiplications of the internal package (C14, C15): every statement and loop header
 	{dir: "ed25519/internal/edwards25519", recv: "Scalar", fn: "signedRadix16", lean: "sc_signedRadix16", full: true, loops: true},
 	{dir: "ed25519/internal/edwards25519", recv: "Scalar", fn: "nonAdjacentForm", lean: "sc_nonAdjacentForm", full: true, loops: true},
+	{dir: "ed25519/internal/edwards25519", recv: "Scalar", fn: "SetBytesWithClamping", lean: "sc_SetBytesWithClamping", full: true, loops: true},
 	{dir: "ed25519/internal/edwards25519", recv: "", fn: "basepointTable", lean: "sm_basepointTable", full: true, loops: true},
 	{dir: "ed25519/internal/edwards25519", recv: "", fn: "basepointNafTable", lean: "sm_basepointNafTable", full: true, loops: true},
 	{dir: "ed25519/internal/edwards25519", recv: "Point", fn: "ScalarBaseMult", lean: "sm_ScalarBaseMult", full: true, loops: true},
